@@ -461,7 +461,7 @@ def run(ctx: Ctx) -> None:
         # two TLC processes: one C01 shard, one C02 shard (Shard = NShards switches the other universe off)
         shards = [(s % 48, 48, 16, 16), (48, 48, s % 16, 16)]
     else:
-        shards = [((s + 5 * k) % 16, 16, 4, 4) for k in range(3)] + [(16, 16, k, 4) for k in range(4)]
+        shards = [((s + 5 * k) % 16, 16, 4, 4) for k in range(2)] + [(16, 16, k, 4) for k in range(4)]   # all of C02's N=2
     cases, stayed = export_mutants(ctx, shards, workers=2)
     ordering_counterexamples(ctx, (s % 48, 48, s % 16, 16))
     ctx.exhaustive = False
@@ -504,15 +504,16 @@ def run(ctx: Ctx) -> None:
 
     # fixed examples and random larger mutants: TLC decides
     fixed = run_traced_jobs(fixed_jobs())
-    rnd = run_traced_jobs(random_jobs(rng, 150 if quick else 6000))
+    rnd = run_traced_jobs(random_jobs(rng, 150 if quick else 4000))
     for t in fixed + rnd:
         ctx.case({"req": [t["desc"], t["inputs"], t["cfg"]]}, nontrivial=t["obs"]["outcome"] == "rejected")
     ctx.extra["fixed_examples"] = [{"label": t["label"], "outcome": t["obs"]["outcome"], "cls": t["obs"]["cls"]} for t in fixed]
     ctx.extra["random_outcomes"] = {k: sum(1 for t in rnd if t["obs"]["outcome"] == k) for k in ("rejected", "returned")}
     stage("fixed + random runs")
-    validate(ctx, fixed + rnd, "traced")
+    traced = fixed + rnd
+    rej = validate(ctx, traced, "traced")
     stage("trace validation")
-    selftest(ctx, pairs, fixed + rnd)
+    selftest(ctx, pairs, [t for i, t in enumerate(traced) if i not in rej])
     stage("selftest")
 
 
